@@ -136,6 +136,13 @@ def cases(tier, seed, i, n):
                 yield dict(kind='gc-in-write', k=k, call=call)
         # real TLS on loopback (certificate from the fixtures): the peer answers the upgrade, sends two messages and
         # then goes quiet - it neither reads nor closes - while the consumer stops iterating
+        # the with-block around the WebSocket is left on ANOTHER thread (session.close()) while this one is still
+        # connecting / at its first events, and then the consumer stops iterating: random interleavings of the two
+        for stop in ('connected', 'ready', 'poll'):
+            for mech in ('break', 'close'):
+                yield dict(kind='close-race-pinned', stop=stop, mech=mech)
+        for r in range(4 if tier == 'quick' else 60):
+            yield dict(kind='close-race', rseed=seed * 977 + r, count=25, prob=(0.1, 0.3, 0.6, 0.9)[r % 4], stop=('connected', 'ready')[r % 2])
         reals = [('tls-quiet', 3), ('tls-quiet', 5), ('tls-quiet', 2),
                  ('rst', 3), ('fin', 3), ('text', 1), ('text', 2), ('text', 3), ('text', 4), ('idle', 4), ('idle', 5)]
         for r, (mode, k) in enumerate(reals):
@@ -338,7 +345,101 @@ class _FakeRun(object):
         self.calls = []
 
 
+def run_close_race_pinned(case, acc):
+    """the same race with the other thread's session.close() pinned: it has looked at the session (no socket yet) when
+    the consumer connects and reaches `stop`; then it finishes; then the consumer stops iterating"""
+    w = H.World(H.hs_server([('raw', refws.enc_frame(1, b'x'))]), budget=50000)
+    seen = []
+    with simnet.Installed(w):
+        ws = env.WebSocket('ws://example.com/', proxies={})
+        g = ws.connect(session_class=simnet.SimSession, ping_rate=0, poll=1.0)
+        sess = ws.session
+        orig = sess._close_socket
+        st = []
+
+        def looked_then_consumer_runs():
+            orig()
+            if not st:
+                st.append(1)
+                try:
+                    for ev in g:
+                        seen.append(ev.name)
+                        if ev.name == case['stop'] or len(seen) > 20:
+                            break
+                except (simnet.Quiesced, simnet.BudgetExceeded):
+                    seen.append('<quiesced>')
+        sess._close_socket = looked_then_consumer_runs
+        sess.close()                      # the other thread: WebSocket.__exit__ / a supervisor
+        del sess._close_socket
+        if case['mech'] == 'close':
+            g.close()
+        del g
+        gc.collect()
+    acc.count2('oracle', 'close_race_schedules')
+    if not st or not seen:
+        acc.count2('oracle', 'close_race_pin_not_reached')
+        return
+    acc.count2('oracle', 'abandon_points_checked')
+    acc.count2('oracle', 'sockets_checked', len(w.socks))
+    open_ = [sk.sid for sk in w.socks if not sk.closed]
+    if open_:
+        acc.violation('socket-left-open-after-abandon:session-closed-on-another-thread-while-connecting',
+                      'C13 abandoned at %s (%s) after session.close() on another thread: socket still open' % (seen[-1], case['mech']), case,
+                      dict(seen=seen, open_sockets=open_))
+    else:
+        acc.cls('close-race-pinned/%s/%s' % (case['stop'], case['mech']))
+
+
+def run_close_race(case, acc):
+    import random
+    from .. import sched
+    rnd = random.Random(case['rseed'])
+    for _ in range(case['count']):
+        with sched.InstalledShim():
+            w = H.World(H.hs_server([('raw', refws.enc_frame(1, b'x'))]), budget=50000)
+            with simnet.Installed(w):
+                ws = env.WebSocket('ws://example.com/', proxies={})
+                g = ws.connect(session_class=simnet.SimSession, ping_rate=0, poll=1.0)
+                s = sched.Scheduler(rnd=random.Random(rnd.randrange(1 << 30)), switch_prob=case['prob'], files=('session.py', 'websocket.py'))
+                seen = []
+
+                def consumer():
+                    try:
+                        for ev in g:
+                            seen.append(ev.name)
+                            if ev.name == case['stop'] or len(seen) > 20:
+                                break
+                    except (simnet.Quiesced, simnet.BudgetExceeded):
+                        seen.append('<quiesced>')
+                    g.close()
+
+                def other():
+                    sess = ws.session
+                    if sess is not None:
+                        sess.close()
+                s.spawn('consumer', consumer)
+                s.spawn('other', other)
+                s.run(first=rnd.randrange(2), timeout=20.0)
+        if s.hung:
+            acc.inconclusive.append('close-race: scheduler watchdog (%r)' % (seen,))
+            continue
+        acc.count2('oracle', 'close_race_schedules')
+        acc.count2('oracle', 'abandon_points_checked')
+        open_ = [sk.sid for sk in w.socks if not sk.closed]
+        acc.count2('oracle', 'sockets_checked', len(w.socks))
+        if open_:
+            acc.violation('socket-left-open-after-abandon:session-closed-on-another-thread-while-connecting',
+                          'C13 abandoned at %s after session.close() on another thread: socket still open' % (seen[-1:] or ['?'],), dict(case, sig=s.schedule_signature()),
+                          dict(seen=seen, open_sockets=open_, session_sock=repr(getattr(ws.session, '_sock', None))))
+            return
+    acc.cls('close-race/%s/%s' % (case['prob'], case['stop']))
+
+
 def run_case(case, acc):
+    if case.get('kind') == 'close-race':
+        return run_close_race(case, acc)
+    if case.get('kind') == 'close-race-pinned':
+        return run_close_race_pinned(case, acc)
     if case['kind'] == 'real':
         return run_real(case, acc)
     if case['kind'] == 'busy-writer':
